@@ -1,23 +1,36 @@
 #!/bin/bash
 # usage: try_seed.sh <seed dir (with patch.diff, demo_test.go)> <worktree> <demo pkg dir> <check id> [check id...]
 # 1. confirms in the scratch worktree: suite passes with the change, demo fails with it, demo passes without
-# 2. applies the patch to /repo, runs the given checks (quick), undoes it
+# 2. runs the given checks (quick) against the change.
+#    Default (as the protocol prescribes): git -C /repo apply; run; git -C /repo checkout -- .
+#    With SEED_IN_WORKTREE=1 the patch stays applied in the scratch worktree and the checks are pointed at it
+#    (GOSYM_REPO, outputs to a temp dir) - used while other runs are reading /repo.
 export GOFLAGS=-mod=mod GOPROXY=off GOSUMDB=off GOTOOLCHAIN=local
 SD=$1; WT=$2; PKG=$3; shift 3
+L=$(mktemp -d /tmp/tryseed.XXXXXX)
 cd $WT || exit 2
 git checkout -q -- . ; rm -f $PKG/zz_demo_test.go
 git apply --check $SD/patch.diff || { echo "PATCH-DOES-NOT-APPLY"; exit 2; }
 cp $SD/demo_test.go $PKG/zz_demo_test.go
-if go test -vet=off -count=1 -run 'Demo|ZZ' ./$PKG >/tmp/try_demo_clean.log 2>&1; then echo "demo-on-clean: PASS"; else echo "demo-on-clean: FAIL(!)"; tail -5 /tmp/try_demo_clean.log; fi
+if go test -vet=off -count=1 -run 'Demo|ZZ' ./$PKG >$L/demo_clean.log 2>&1; then echo "demo-on-clean: PASS"; else echo "demo-on-clean: FAIL(!)"; tail -5 $L/demo_clean.log; fi
 git apply $SD/patch.diff
-if go test -vet=off -count=1 -run 'Demo|ZZ' ./$PKG >/tmp/try_demo_mut.log 2>&1; then echo "demo-with-change: PASS(!)"; else echo "demo-with-change: FAIL (as intended)"; fi
+if go test -vet=off -count=1 -run 'Demo|ZZ' ./$PKG >$L/demo_mut.log 2>&1; then echo "demo-with-change: PASS(!)"; else echo "demo-with-change: FAIL (as intended)"; fi
 rm -f $PKG/zz_demo_test.go
-if go build ./... >/tmp/try_suite.log 2>&1 && go test -vet=off -count=1 ./... >>/tmp/try_suite.log 2>&1; then echo "suite-with-change: PASS"; else echo "suite-with-change: FAIL(!)"; grep -E "^(FAIL|---)" /tmp/try_suite.log | head -5; fi
-git checkout -q -- .
-cd /repo && git apply $SD/patch.diff || { echo "cannot apply to /repo"; exit 2; }
-for id in "$@"; do
-  /verif/bin/gosym check $id --tier quick > /tmp/try_check_$id.log 2>&1; rc=$?
-  echo "check $id: exit=$rc $(grep -E '^(VIOLATION|INCONCLUSIVE|UNCONFIRMED)' /tmp/try_check_$id.log | head -3 | tr '\n' ' ')"
-done
-git -C /repo checkout -q -- .
-git -C /repo status --short | head -3
+if go build ./... >$L/suite.log 2>&1 && go test -vet=off -count=1 ./... >>$L/suite.log 2>&1; then echo "suite-with-change: PASS"; else echo "suite-with-change: FAIL(!)"; grep -E "^(FAIL|---)" $L/suite.log | head -5; fi
+if [ -n "$SEED_IN_WORKTREE" ]; then
+  for id in "$@"; do
+    GOSYM_REPO=$WT GOSYM_OUT=$L /verif/bin/gosym check $id --tier quick > $L/check_$id.log 2>&1; rc=$?
+    echo "check $id: exit=$rc $(grep -E '^(VIOLATION|INCONCLUSIVE|UNCONFIRMED|VACUOUS)' $L/check_$id.log | head -3 | tr '\n' ' ')"
+  done
+  git checkout -q -- .
+else
+  git checkout -q -- .
+  cd /repo && git apply $SD/patch.diff || { echo "cannot apply to /repo"; exit 2; }
+  for id in "$@"; do
+    GOSYM_OUT=$L /verif/bin/gosym check $id --tier quick > $L/check_$id.log 2>&1; rc=$?
+    echo "check $id: exit=$rc $(grep -E '^(VIOLATION|INCONCLUSIVE|UNCONFIRMED|VACUOUS)' $L/check_$id.log | head -3 | tr '\n' ' ')"
+  done
+  git -C /repo checkout -q -- .
+  git -C /repo status --short | head -3
+fi
+echo "logs: $L"
